@@ -27,8 +27,16 @@ PROP = dict(
               "ramp (one-shot and frames M..6M); audio ratios 160/441, 441/160, 147/160, 160/147, 320/147 (+interp 147,160,320,441, decim "
               "147,160,441): default h and 3 lengths x <= 5 pairs + dense, 8 boundary impulse positions; resample: p, q in 1..8, n 1..12 "
               "(beta 0/5/9 for n in {1,10}), custom h lengths 2..2max+3, 4max, 4max+1, 12max+1; alignment p, q in 1..8 + 7 audio pairs, n 1..12",
-        thorough="L, M in 1..16 likewise; audio ratios: default h and 11 lengths {2,3,max-1,max,max+1,2max+3,4max,4max+1,12max+1,40max,40max+1} x <= 5 pairs + dense, impulse at every position 0..2M+1 for the default h and len(h) <= 4max+1 (8 boundary positions above); resample p, q in 1..16"),
-    deadline=dict(quick=150, thorough=1500),
+        thorough="L, M in 1..24 (all coprime pairs: FIRRateConverter and FIRResampler; FIRInterpolator L 1..24; FIRDecimator M 1..24); h as quick for "
+                 "max(L,M) <= 16, above that every pair/dense for lengths 2..2max+3, 4max, 4max+1 and 5 pairs + dense for 12max(+1), 40max(+1); framings: "
+                 "impulses one-shot, frames M, 2M and the mixed pattern (M,3M,2M); LCG and ramp one-shot, frames M..8M and three mixed patterns "
+                 "(M,3M,2M), (4M,M,M,2M), (2M,0,3M,0,M); audio ratios 160/441, 441/160, 147/160, 160/147, 320/147, 80/147, 147/80, 147/320, 640/147 "
+                 "(+interp 147,160,320,441, decim 147,160,441): default h and 11 lengths {2,3,max-1,max,max+1,2max+3,4max,4max+1,12max+1,40max,40max+1} "
+                 "x <= 5 pairs + dense, impulse at every position 0..2M+1 for the default h and len(h) <= 4max+1; chain.long additionally 270000-sample "
+                 "frames for the five basic forms; resample: p, q in 1..32 (unreduced too), n 1..12 each with beta in {default, 0, 2.5, 9, 14}, custom h "
+                 "lengths 2..2max+3, 4max, 4max+1, 12max+1; alignment p, q in 1..32 + 7 audio pairs, n 1..12; band limitation for every reduced "
+                 "L/M in [0.3, 2/3] and every 1/M with M <= 16 plus 160/441, 147/320, 80/147"),
+    deadline=dict(quick=150, thorough=3000),
     assumptions=COMMON_ASSUME + [
         "'a fixed phase': one integer t per (class, L, M, h), any value with |t| <= len(h)+L+M (weakest reading); tolerance 1e-12 relative "
         "to max|w| of the undecimated reference (>= max|y|)",
